@@ -473,7 +473,7 @@ fn execute(pi: &PiConsts, ops: &[BOp]) -> (Option<BViolation>, u64, Vec<&'static
 fn shrink(pi: &PiConsts, ops: &[BOp], v: &BViolation) -> (Vec<BOp>, BViolation) {
     let mut ops: Vec<BOp> = ops[..(v.step + 1).min(ops.len())].to_vec();
     let mut best = v.clone();
-    let mut test = |c: &[BOp]| -> Option<BViolation> {
+    let test = |c: &[BOp]| -> Option<BViolation> {
         match execute(pi, c).0 {
             Some(x) if x.class == v.class => Some(x),
             _ => None,
